@@ -99,7 +99,7 @@ def wal_replay(ctx, gencfg, label, mode, n, big=False, extra=None, want=None):
 def lh_replay(ctx, n, mult=16):
     """spec -> code: behaviours of the LHIndex model on the real 31-slot buckets through `fat keys'."""
     import behaviours as B
-    behs = export_behaviours(ctx, "GenLH.tla", "cfg/gen_lh.cfg", "lh")
+    behs = export_behaviours(ctx, "GenLH.tla", "cfg/gen_lh_q.cfg" if ctx.quick() else "cfg/gen_lh.cfg", "lh")
     sm = B.sample(behs, n, ctx.seed, minlen=4)
     fk = B.FatKeys(0x9e3779b9)
     nsh = 8
@@ -161,6 +161,8 @@ def c04(ctx):
 def c06(ctx):
     q = ctx.quick()
     wal_models(ctx, "power", ["D3a", "D3b", "D9"])
+    # the oracle itself: Layer A accepts an ideal implementation in every interleaving, incl. its power-loss images
+    ctx.model_check("AbsModel.tla", "cfg/abs_model_syncw.cfg" if q else "cfg/abs_model.cfg", workers=8, timeout=3000)
     n = 4 if q else 40
     rejs = regress(ctx) + fault_family(ctx, "power", "power", CORES // 2, n, 18, ["-noreopen", "-epochs", "-plimit", "32" if q else "96"])
     rejs += fault_family(ctx, "power-syncw", "power", CORES // 2, n, 18, ["-noreopen", "-epochs", "-syncw", "-plimit", "32" if q else "96"])
@@ -220,12 +222,13 @@ def c01(ctx):
     lh_models(ctx)
     outs = seq_jobs(ctx, "seq-small", 4, 6 if q else 40, 60, 10, ("crashfs", "mem", "os", "osmmap"))
     outs += seq_jobs(ctx, "seq-chains", 12, 3 if q else 20, 260 if q else 500, 72, ("crashfs", "crashfs", "osmmap", "mem", "os", "crashfs"))
+    outs += seq_jobs(ctx, "seq-long-chains", 4, 2 if q else 16, 400, 170, ("crashfs", "osmmap", "mem", "os"), ["-oneclass"])
     rejs = regress(ctx) + ctx.validate(outs) + lh_replay(ctx, 60 if q else 1500, mult=None)
     ctx.sample_from(outs[0], 1)
     ctx.report_rejections(rejs, describe_generic)
     h = ctx.cov["harness"]
-    ctx.cov["evaluations"] = h["seq-small"].get("ops", 0) + h["seq-chains"].get("ops", 0)
-    ctx.cov["distinct_nontrivial"] = h["seq-small"].get("programs", 0) + h["seq-chains"].get("programs", 0)
+    ctx.cov["evaluations"] = sum(h[k].get("ops", 0) for k in ("seq-small", "seq-chains", "seq-long-chains"))
+    ctx.cov["distinct_nontrivial"] = sum(h[k].get("programs", 0) for k in ("seq-small", "seq-chains", "seq-long-chains", "behaviours-lh"))
     ctx.assumptions += ["key sets engineered with an independent MurmurHash3 copy under a pinned hash seed (hook VerifPinnedSeed): 1-2 low-bit classes (chains of 2-4 buckets) plus pairs with identical 32-bit hashes"]
     return ctx.finish("model_checking", "random single-goroutine programs (fill, delete/re-put churn, reads, Sync, Compact, clean restarts) over 10 keys (full read-back after every write) and over ~80 colliding keys "
                       "(Count + Get probe after every write, full read-back incl. Has and a full Items scan every 25 operations and at the end) on crashfs, fs.Mem, fs.OS and fs.OSMMap with 2-64 KB segments; "
@@ -269,6 +272,10 @@ def c02(ctx):
 def c11(ctx):
     q = ctx.quick()
     lh_models(ctx)
+    # a scan interleaved with writers on the model: truthful and complete for untouched keys;
+    # an iterator that caches the bucket count at creation must be refuted
+    ctx.model_check("LHScan.tla", "cfg/lhscan.cfg", timeout=3000)
+    ctx.model_check("LHScan.tla", "cfg/lhscan_cached.cfg", expect_violation="CompleteForUntouched", timeout=900)
     outs = seq_jobs(ctx, "scan-steps", 12, 3 if q else 24, 300, 90, ALLFS, ["-scans"])
     outs += seq_jobs(ctx, "scan-steps-compact", 4, 3 if q else 24, 200, 40, ("crashfs", "osmmap"), ["-scans", "-inject"])
     rejs = regress(ctx, "C01") + ctx.validate(outs)
@@ -325,9 +332,11 @@ def stress_jobs(ctx, label, nshards, nhist, ops, keys, fss, extra=None, race=Fal
 
 def c07(ctx):
     q = ctx.quick()
+    if not q:
+        ctx.model_check("AbsModel.tla", "cfg/abs_model.cfg", workers=8, timeout=3000)
     outs = stress_jobs(ctx, "stress", 12, 20 if q else 300, 14, 4, ALLFS, ["-maint"], workers=3)
     outs += stress_jobs(ctx, "stress-bg", 4, 10 if q else 150, 14, 3, ("osmmap", "os", "mem", "crashfs"), ["-maint", "-bg"], workers=3)
-    outs += stress_jobs(ctx, "stress-grow", 12, 3 if q else 40, 120, 800, ALLFS, ["-maint", "-grow"], workers=3)
+    outs += stress_jobs(ctx, "stress-grow", 16, 4 if q else 40, 120, 800, ALLFS, ["-maint", "-grow"], workers=3)
     jobs, o2 = fault_jobs(ctx, "seq", 4, 6 if q else 60, 50, 5, ["-inject"])
     add_stats(ctx, ctx.vrun_parallel(jobs), "compact-inject")
     rejs = ctx.validate(outs + o2, dfs=True)
@@ -363,6 +372,10 @@ def race_reports(ctx):
 
 def c10(ctx):
     q = ctx.quick()
+    # design level: the lock discipline (DB.mu, maintenanceMu, iterator mutex, closeWg) has no deadlock and terminates;
+    # a Close that takes DB.mu before waiting for the worker must deadlock (non-vacuity)
+    ctx.model_check("Locks.tla", "cfg/locks.cfg", workers=8, timeout=1800)
+    ctx.model_check("Locks.tla", "cfg/locks_bad.cfg", workers=8, expect_violation="Deadlock", timeout=1800)
     outs = stress_jobs(ctx, "race-stress", 12, 8 if q else 120, 14, 4, ("mem", "os", "osmmap"), ["-maint", "-closemid", "-bg"], race=True, workers=3)
     outs += stress_jobs(ctx, "close-race", 4, 20 if q else 200, 10, 3, ALLFS, ["-maint", "-closemid"], workers=3)
     outs += stress_jobs(ctx, "race-grow", 4, 2 if q else 30, 120, 800, ("osmmap", "mem", "os", "osmmap"), ["-maint", "-grow"], race=True, workers=3)
@@ -517,10 +530,10 @@ def c15(ctx):
     wal_models(ctx, "power", ["D6b"])
     outs = seq_jobs(ctx, "after-compact", 8, 6 if q else 60, 120, 20, ALLFS, ["-strict", "-aftercompact"])
     jobs, outs2 = [], []
-    for i, fsn in enumerate(("os", "osmmap", "os", "osmmap")):
+    for i, fsn in enumerate(("os", "osmmap") * (3 if q else 6)):
         out = ctx.path("rec-steady-%d.ndjson" % i)
         outs2.append(out)
-        jobs.append(["steady", "-fs", fsn, "-n", "1" if q else "4", "-ops", "40" if q else "160", "-keys", str(40 + 30 * i), "-dir", ctx.path("tmp"),
+        jobs.append(["steady", "-fs", fsn, "-n", "1" if q else "4", "-ops", "36" if q else "200", "-keys", str(30 + 8 * i), "-dir", ctx.path("tmp"),
                      "-seed", str(ctx.seed * 7919 + i), "-out", out])
     add_stats(ctx, ctx.vrun_parallel(jobs), "steady")
     rejs = ctx.validate(outs + outs2)
